@@ -21,7 +21,7 @@ A case:
    sched:{kind:'random'|'pct', seed, ..} | {kind:'replay', choices:[tid..]}}
   op  = {op:'acquire_all',p,ws,n} | {op:'release_all',p,ws} | {op:'next_idle',p,ws,acq} | {op:'release',p,w}
       | {op:'idle',p} | {op:'call',p,w}
-  eop = {op:'die',w} | {op:'revive',w} | {op:'send',w,alive} | {op:'deliver',k,fail} | {op:'tick',d}
+  eop = {op:'die',w} | {op:'revive',w} | {op:'send',w,alive} | {op:'deliver',k,fail} | {op:'tick',d} | {op:'shutdown',w}
 """
 import logging
 import random
@@ -149,7 +149,7 @@ def canon_outcome(res):
   if r.startswith('err:RuntimeError:Failed to connect'):
     return 'disconnected'
   return 'raised'
-ENV_OPS = ('die', 'revive', 'send', 'deliver', 'tick')
+ENV_OPS = ('die', 'revive', 'send', 'deliver', 'tick', 'shutdown')
 
 
 def make_chooser(spec, hook):
@@ -321,6 +321,8 @@ def run_real(case, max_steps=4000):
         fakecourier.deliver(o['k'], fate=fakecourier.APP_ERROR if o['fail'] else None)
       elif op == 'tick':
         clock.advance(o['d'])
+      elif op == 'shutdown':      # the REAL CourierClient.shutdown of the worker's client object (round 6)
+        workers[o['w']].shutdown()
       else:
         raise ValueError(op)
       return None
